@@ -76,6 +76,10 @@ macro_rules! function {
                 args: &[Value],
             ) -> Result<Type, Error>
             {
+                if args.len() != [$(stringify!($aname)),+].len() {
+                    bail!("{} expects {} argument(s), {} given",
+                        stringify!($name), [$(stringify!($aname)),+].len(), args.len())
+                }
                 let mut targs : Vec<Type> = Vec::with_capacity(args.len());
                 for x in args {
                     let t = x.real_type_of($ctx.clone())?;
@@ -98,6 +102,10 @@ macro_rules! function {
                 args: &[Value],
             ) -> Result<Value, Error>
             {
+                if args.len() != [$(stringify!($aname)),+].len() {
+                    bail!("{} expects {} argument(s), {} given",
+                        stringify!($name), [$(stringify!($aname)),+].len(), args.len())
+                }
                 $crate::args!(args, ctx=$ctx, opts=$arg_opts, $($aname),+);
                 $body
             }
